@@ -250,6 +250,15 @@ def run(prog: Program, chk: Check):
     env = ty.locals_of(sf)
     dvars = [k for k, t in env.items() if t.kind == "cls" and t.cls.name == "MDF_FAILED_MESSAGE"]
     mparam = next((p for p in sf.params() if env.get(p) is not None and env[p].is_cls("Module")), None)
+    if not dvars and mparam is not None:
+        shared_ = [c_ for c_ in calls_in(sf.node) if self_call("forward_message")(c_) and len(c_.args) == 3 and (path_of(c_.args[2]) or "").startswith("self.")]
+        if shared_:
+            # the notice is assembled in an object owned by the manager: delivering it can fail too, and the nested report then
+            # rewrites the very object that is being sent to the remaining recipients
+            N.bad(fkey(sf, "notice-is-per-failure"), where(sf, shared_[0]), f"send_failed_message publishes the shared object `{path_of(shared_[0].args[2])}` (and header `{path_of(shared_[0].args[1])}`) "
+                  "instead of a notice built for this failure: a failure met while the notice is delivered refills it mid fan-out")
+            chk.units.update({"recipient_send_sites": len(sends), "required_guard_types": sorted(required)})
+            return
     if not dvars or mparam is None:
         raise AnalysisError("anchor vanished: MDF_FAILED_MESSAGE local / Module parameter in send_failed_message")
     dv = dvars[0]
